@@ -230,6 +230,16 @@ pub fn gen_val(rng: &mut Rng) -> Val {
         5 => Val::F32(if rng.chance(1, 8) { *rng.pick(&[f32::NAN, f32::INFINITY, f32::NEG_INFINITY, 0.0, f32::MAX, f32::MIN_POSITIVE]) } else { f32::from_bits(rng.next() as u32) }),
         6 => Val::F64(if rng.chance(1, 8) { *rng.pick(&[f64::NAN, f64::INFINITY, f64::NEG_INFINITY, 0.0, f64::MAX, 1e-310]) } else { f64::from_bits(rng.next()) }),
         7 => Val::Bool(rng.bool()),
+        // now and then a long text (100-300 bytes) as string or as error item with/without extended text
+        8 if rng.chance(1, 25) => Val::Str(p.long_ascii[rng.usize(12)]),
+        9 if rng.chance(1, 25) => {
+            let e = scpi::error::Error::custom(*rng.pick(&[-365i16, 77, 1, -1]), p.long_ascii[rng.usize(12)]);
+            Val::Err(match rng.usize(3) {
+                0 => e,
+                1 => e.extended(*rng.pick(&p.ascii)),
+                _ => e.extended(p.long_ascii[rng.usize(12)]),
+            })
+        }
         8 | 9 => Val::Str(*rng.pick(&p.ascii)),
         10 => Val::Arb(*rng.pick(&p.bin)),
         11 => Val::Utf8(*rng.pick(&p.utf8)),
